@@ -398,7 +398,8 @@ class QBlock:
                 if self.default_argument is None:
                     raise JaqalError(f"{type(self).__name__} requires an argument")
                 ret.append(self.default_argument)
-            ret.append(lookup_object(self.argument))
+            else:
+                ret.append(lookup_object(self.argument))
 
         if self.wrap_statements:
             inner = [QSequentialBlock.internal_name]
